@@ -182,6 +182,13 @@ def summarize(pr):
         except Exception as e:
             d["fill"] = "error:" + type(e).__name__
         try:
+            f = c.fill
+            us = getattr(f, "universes", None) if f is not None else None
+            if us is not None:
+                d["fill_matrix"] = [(u.number if u is not None else None) for u in us.flatten()]
+        except Exception as e:
+            d["fill_matrix"] = "error:" + type(e).__name__
+        try:
             d["volume"] = _num(c.volume) if c.volume_is_set else None
         except Exception as e:
             d["volume"] = "error:" + type(e).__name__
@@ -1059,6 +1066,36 @@ def spec_read(text):
         inv.append(f"cell number {n} is used twice")
     for n in sorted(set(x for x in sn if sn.count(x) > 1)):
         inv.append(f"surface number {n} is used twice")
+    # matrix fills: FILL i0:i1 j0:j1 k0:k1 u... with exactly one universe per lattice element
+    declared = set()
+    u_card_ok = True
+    for c in cells:
+        pu = c["params"].get("U")
+        if pu and re.match(r"^-?\d+$", pu[0]):
+            declared.add(abs(int(pu[0])))
+    for card in blocks[2]:
+        toks = spec.tokens(card.text)
+        if toks and toks[0] == "U":
+            vals = spec.expand_shortcuts(toks[1:])
+            if all(hasattr(v, "numerator") or v == "J" for v in vals):
+                declared.update(abs(int(v)) for v in vals if hasattr(v, "numerator") and v == int(v))
+            else:
+                u_card_ok = False
+    for c in cells:
+        pf = c["params"].get("FILL") or c["params"].get("*FILL")
+        c["fill_matrix"] = None
+        if pf and len(pf) > 3 and all(re.match(r"^-?\d+:-?\d+$", x) for x in pf[:3]) \
+                and all(re.match(r"^\d+$", x) for x in pf[3:]):
+            n = 1
+            for x in pf[:3]:
+                lo, hi = x.split(":") if not x.startswith("-") else ("-" + x[1:].split(":")[0], x[1:].split(":", 1)[1])
+                n *= max(0, int(hi) - int(lo) + 1)
+            if n == len(pf) - 3:
+                c["fill_matrix"] = [int(x) for x in pf[3:]]
+                if complete and u_card_ok and "read card" not in out["unknown"]:
+                    for u in sorted(set(c["fill_matrix"])):
+                        if u > 0 and u not in declared:
+                            inv.append(f"cell {c['number']} fill matrix names missing universe {u}")
     if complete:
         mats = set()
         trs = set()
@@ -1156,6 +1193,11 @@ def misrepresentations(sp, summ):
             if pu is not None and len(pu) == 1 and re.match(r"^-?\d+$", pu[0]):
                 if abs(int(pu[0])) != (b.get("universe") if isinstance(b.get("universe"), int) else -1):
                     diffs.append(("cell universe", a["number"], pu[0], b.get("universe")))
+            fm = a.get("fill_matrix")
+            if fm is not None and isinstance(b.get("fill_matrix"), list):
+                got = b["fill_matrix"]
+                if any(x is None for x in got) or sorted(got) != sorted(fm):
+                    diffs.append(("cell fill matrix", a["number"], fm[:12], got[:12]))
             pf = a["params"].get("FILL")
             if pf is not None and len(pf) == 1 and re.match(r"^\d+$", pf[0]) and "*FILL" not in a["params"]:
                 if int(pf[0]) != (b.get("fill") if isinstance(b.get("fill"), int) else (0 if b.get("fill") is None else -1)):
@@ -1300,10 +1342,53 @@ def judge(case, res):
 
 
 # =========================================================================================== cases
+def lattice_problem(rng):
+    """a well-formed problem with a lattice cell filled by a matrix of universes (gen.py has none): a few universe
+    cells, the lattice cell `lat=1 fill=i0:i1 j0:j1 k0:k1 u...` in its own universe, a container filled with it"""
+    nums = rng.sample(range(1, 60), 8)
+    nu = rng.randint(2, 3)
+    unis = rng.sample(range(1, 40), nu + 1)
+    lat_u = unis[-1]
+    unis = unis[:-1]
+    snums = rng.sample(range(1, 90), nu + 2)
+    dims = [rng.choice([1, 1, 2, 3]), rng.choice([1, 2]), rng.choice([1, 1, 2])]
+    lows = [rng.choice([0, 0, -1]) for _ in dims]
+    ranges = " ".join("%d:%d" % (lo, lo + n - 1) for lo, n in zip(lows, dims))
+    entries = [rng.choice(unis) for _ in range(dims[0] * dims[1] * dims[2])]
+    eq = rng.choice(["=", "=", " "])
+    lines = [rng.choice(["lattice filled with a matrix of universes", "matrix fill problem"])]
+    for k, u in enumerate(unis):
+        lines.append("%d 0 -%d u=%d imp:n=1" % (nums[k], snums[k], u))
+    lat_cell = nums[nu]
+    ent = " ".join(str(e) for e in entries)
+    first = "%d 0 -%d lat=1 fill%s%s %s" % (lat_cell, snums[nu], eq, ranges, ent)
+    if len(first) > 70:
+        cut = first.rfind(" ", 0, 70)
+        lines.append(first[:cut])
+        lines.append("     " + first[cut + 1:] + " u=%d imp:n=1" % lat_u)
+    else:
+        lines.append(first + " u=%d imp:n=1" % lat_u)
+    lines.append("%d 0 -%d fill=%d imp:n=1" % (nums[nu + 1], snums[nu + 1], lat_u))
+    lines.append("%d 0 %d imp:n=0" % (nums[nu + 2], snums[nu + 1]))
+    lines.append("")
+    for k in range(nu):
+        lines.append("%d so %s" % (snums[k], rng.choice(["0.5", "0.4", "1.25"])))
+    lines.append("%d rpp -1 1 -1 1 -1 1" % snums[nu])
+    lines.append("%d so 10" % snums[nu + 1])
+    lines.append("")
+    lines.append("mode n")
+    if rng.random() < 0.5:
+        lines.append("nps 1000")
+    lines.append("")
+    return "\n".join(lines) + "\n"
+
+
 def base_problem(seed, i):
     """the i-th well-formed file of a run"""
     import gen
     rng = random.Random(f"{seed}:C13:base:{i}")
+    if i % 4 == 3:
+        return lattice_problem(rng)
     if i % 4 == 1:
         # a small problem: blocks with a single input are frequent (one cell, one surface, only MODE in the data block)
         P = gen.gen_problem(rng, dict(max_cells=rng.choice([1, 1, 2]), materials=False, transforms=False, extras=False,
@@ -1326,6 +1411,9 @@ def cases_of_base(seed, i, text, per_token, rng):
             # turning an input into a comment line: always (an input that is the only one of its block leaves a block
             # of comment lines)
             chosen = chosen + ["comment_out"]
+        if per_token > 0 and tok["role"] == "pval:fill" and "dangle" in ks and "dangle" not in chosen:
+            # every universe a FILL names (each element of a matrix fill): always made dangling once
+            chosen = chosen + ["dangle"]
         if per_token > 0 and tok["role"] in ("cellnum", "surfnum", "matnum"):
             # the numbers that identify objects: always all number corruptions (they are few)
             chosen = chosen + [k for k in ("negate", "zero", "deint", "dupnum") if k in ks and k not in chosen]
